@@ -7,6 +7,7 @@ import (
 
 	"github.com/antonmedv/expr"
 	"github.com/antonmedv/expr/ast"
+	"github.com/antonmedv/expr/parser"
 
 	"verif/mc/gen"
 	"verif/mc/henv"
@@ -244,7 +245,7 @@ func c10(r *report.Run) {
 	var trees, walks, positions int64
 	order := int64(0)
 	shapes := map[string]bool{}
-	c10Build(depth, func(root ast.Node, desc string) {
+	checkTree := func(root ast.Node, desc string) {
 		trees++
 		order++
 		ids := map[ast.Node]int{}
@@ -298,7 +299,7 @@ func c10(r *report.Run) {
 				if pi == 0 {
 					wantDump = "UnaryNode(Operator=not;Node=StringNode(Value=MARK;);)"
 				}
-				if !c10ReplacedAt(parentSlot) {
+				if !c10ReplacedAt(parentSlot) || c10StillReachable(rt, target) {
 					kind = "replacement-lost"
 				} else if onEnter && !strings.Contains(strings.Join(rec.events, " ")+" ", fmt.Sprintf("E%d ER XR XR ", ids[target])) {
 					kind = "replacement-children-not-walked"
@@ -306,6 +307,7 @@ func c10(r *report.Run) {
 				_ = after
 				_ = wantDump
 				restore()
+				c10RestoreAll(&rt, target)
 				if kind != "" {
 					tk := reflect.TypeOf(target).Elem().Name()
 					when := "exit"
@@ -318,7 +320,45 @@ func c10(r *report.Run) {
 				}
 			}
 		}
-	})
+	}
+	c10Build(depth, checkTree)
+	// trees as the parser builds them (the short conditional a ?: b shares one node between two slots)
+	var parsed int64
+	seqLen := 3
+	if r.Tier == "thorough" {
+		seqLen = 4
+	}
+	toks := []string{"a", "1", "not", "-", "*", "and", "?", ":", "?:", "(", ")", ".", "?.", "[", "]", ",", "{", "}", "#", "all", "f", "in", ".."}
+	var recSeq func(cur []string)
+	recSeq = func(cur []string) {
+		if len(cur) > 0 {
+			src := strings.Join(cur, " ")
+			if t, err := parser.Parse(src); err == nil {
+				parsed++
+				checkTree(t.Node, "parsed: "+src)
+			}
+		}
+		if len(cur) == seqLen+2 {
+			return
+		}
+		for _, t := range toks {
+			recSeq(append(cur, t))
+		}
+	}
+	if r.Tier == "thorough" {
+		recSeq(nil)
+	} else {
+		// quick: all sequences of <= 5 tokens over a smaller alphabet
+		toks = []string{"a", "1", "not", "*", "?", ":", "?:", "(", ")", ".", "[", "]", ",", "f"}
+		recSeq(nil)
+	}
+	for _, src := range []string{"a ?: b", "(a == b) ?: c", "f(a ?: b)", "[a ?: 1][0]", "a ?: b ?: c", "all(x, {# ?: a})", "x[:a ?: b]", "x[a:]", "x[:a]", "x[:]", "{k: a ?: b}", "a.b ?: c.d(e)"} {
+		if t, err := parser.Parse(src); err == nil {
+			parsed++
+			checkTree(t.Node, "parsed: "+src)
+		}
+	}
+	r.Set("parser_built_trees", parsed)
 	r.Set("trees", trees)
 	// end to end: one-hole contexts compiled with a Patch visitor
 	e2e, e2eRuns := c10EndToEnd(r)
@@ -513,6 +553,27 @@ func c10EndToEnd(r *report.Run) (contexts, runs int64) {
 				names := gen.Names(e)
 				for _, m := range sl.modes {
 					want, errW := lib.Compile(src42, m)
+					if strings.Contains(src, "41") && !strings.Contains(src, "k41") {
+						// two visitors in sequence: 41 -> 20 + 21, then 21 -> 22
+						src2 := strings.Replace(src, "41", "(20 + 22)", 1)
+						w2, e2 := lib.Compile(src2, m)
+						g2, eg2 := lib.Compile(src, m, expr.Patch(c10Expand{}), expr.Patch(c10Bump{}))
+						if e2 == nil && eg2 == nil {
+							for _, v := range vals {
+								a, ea := lib.Run(w2, m.RunEnv(henv.Make(v), names))
+								b, eb := lib.Run(g2, m.RunEnv(henv.Make(v), names))
+								runs += 2
+								if (ea == nil) != (eb == nil) || (ea == nil && henv.Norm(a) != henv.Norm(b)) {
+									r.Report(report.Violation{Sub: "two-visitors@" + m.String(), Kind: "second-visitor-does-not-see-the-first-one's-result", Witness: c10Context(e), Order: base + contexts,
+										Detail: map[string]interface{}{"source": src, "env": v.Describe(), "patched": henv.Norm(b) + fmt.Sprint(eb), "direct": henv.Norm(a) + fmt.Sprint(ea)}})
+									break
+								}
+							}
+						} else if (e2 == nil) != (eg2 == nil) {
+							r.Report(report.Violation{Sub: "two-visitors@" + m.String(), Kind: "compile-differs", Witness: c10Context(e), Order: base + contexts,
+								Detail: map[string]interface{}{"source": src, "patched_error": fmt.Sprint(eg2), "direct_error": fmt.Sprint(e2)}})
+						}
+					}
 					for _, onEnter := range []bool{false, true} {
 						got, errG := lib.Compile(src, m, expr.Patch(&c10Patch{onEnter: onEnter}))
 						when := map[bool]string{false: "exit", true: "enter"}[onEnter]
@@ -562,4 +623,87 @@ func c10Context(e *gen.Expr) string {
 		return "root"
 	}
 	return fmt.Sprintf("%s %s slot %d", parent.R.Op, parent.R.Arg, slot)
+}
+
+// c10StillReachable reports whether target still sits in some slot of the tree (a node shared by two
+// slots, as in a ?: b, must be replaced in both).
+func c10StillReachable(root, target ast.Node) bool {
+	if root == target {
+		return true
+	}
+	if root == nil || reflect.ValueOf(root).IsNil() {
+		return false
+	}
+	for _, s := range c10Slots(root) {
+		if s.list {
+			for i := 0; i < s.field.Len(); i++ {
+				if c10StillReachable(s.field.Index(i).Interface().(ast.Node), target) {
+					return true
+				}
+			}
+		} else if !s.field.IsNil() && c10StillReachable(s.field.Interface().(ast.Node), target) {
+			return true
+		}
+	}
+	return false
+}
+
+// two visitors: the second must see the tree as the first left it
+type c10Expand struct{}
+
+func (c10Expand) Enter(*ast.Node) {}
+func (c10Expand) Exit(n *ast.Node) {
+	if x, ok := (*n).(*ast.IntegerNode); ok && x.Value == 41 {
+		ast.Patch(n, &ast.BinaryNode{Operator: "+", Left: &ast.IntegerNode{Value: 20}, Right: &ast.IntegerNode{Value: 21}})
+	}
+}
+
+type c10Bump struct{}
+
+func (c10Bump) Enter(*ast.Node) {}
+func (c10Bump) Exit(n *ast.Node) {
+	if x, ok := (*n).(*ast.IntegerNode); ok && x.Value == 21 {
+		ast.Patch(n, &ast.IntegerNode{Value: 22})
+	}
+}
+
+// c10RestoreAll puts target back wherever the MARK replacement sits (shared nodes occupy several slots).
+func c10RestoreAll(root *ast.Node, target ast.Node) {
+	isMark := func(n ast.Node) bool {
+		u, ok := n.(*ast.UnaryNode)
+		if !ok || u.Operator != "not" {
+			return false
+		}
+		s, ok := u.Node.(*ast.StringNode)
+		return ok && s.Value == "MARK"
+	}
+	if isMark(*root) {
+		*root = target
+		return
+	}
+	var rec func(cur ast.Node)
+	rec = func(cur ast.Node) {
+		if cur == nil || reflect.ValueOf(cur).IsNil() {
+			return
+		}
+		for _, s := range c10Slots(cur) {
+			if s.list {
+				for i := 0; i < s.field.Len(); i++ {
+					el := s.field.Index(i)
+					if isMark(el.Interface().(ast.Node)) {
+						el.Set(reflect.ValueOf(target))
+					} else {
+						rec(el.Interface().(ast.Node))
+					}
+				}
+			} else if !s.field.IsNil() {
+				if isMark(s.field.Interface().(ast.Node)) {
+					s.field.Set(reflect.ValueOf(target))
+				} else {
+					rec(s.field.Interface().(ast.Node))
+				}
+			}
+		}
+	}
+	rec(*root)
 }
